@@ -579,6 +579,8 @@ def b_len(I, st, args, kw, node):
             c = st.cell(v)
             if "__symlen__" in c:
                 return c["__symlen__"]
+            if c.get("__condapp__"):
+                raise Unsupported("len of a list with conditional appends")
             return len(c["__list__"])
         if v.kind == "dict":
             return len(st.cell(v)["__dict__"])
@@ -922,6 +924,8 @@ def listcomp(I, st, e, mod):
     if isinstance(it, (tuple, list, range, frozenset)):
         items = sorted(it) if isinstance(it, frozenset) else list(it)
     elif isinstance(it, Ref) and it.kind == "list" and "__symlen__" not in st.cell(it):
+        if st.cell(it).get("__condapp__"):
+            raise Unsupported("comprehension over a list with conditional appends")
         items = list(st.cell(it)["__list__"])
     elif isinstance(it, Opaque) and it.tag == "dictitems":
         items = list(it.info["items"])
